@@ -257,7 +257,8 @@ Fixpoint nodup_strb (l : list string) : bool :=
 Definition hyps_ok (c : cell) (gs : list group) (root : Z) : bool :=
   match build_tree (fuel_of c) (adjacency c) root with
   | Some t =>
-      tree_adjb (adjacency c) t && list_eqb Z.eqb (dedup (preorder t)) (preorder t)
+      wfb c && root_has_proxb c
+      && tree_adjb (adjacency c) t && Zlist_eqb (dedup (preorder t)) (preorder t)
       && forallb (fun x => memZ x (ids c)) (preorder t)
       && nodup_strb (map gid gs ++ map gid (name_groups (Z.of_nat (List.length gs)) O (sect_tree t [])))
   | None => false
